@@ -2018,8 +2018,12 @@ func (query *Query) exec() (result any, err error) {
 		return rs[0], nil
 	}
 	slice := make([]any, 0)
-	dimensions := 0
+	// (a path that some documents lack reads NULL there: that is no row)
+	dimensions, rows := 0, 0
 	for _, current := range query.from {
+		if current != nil {
+			rows++
+		}
 		if _, ok := current.([]any); ok {
 			dimensions++
 		}
@@ -2028,7 +2032,7 @@ func (query *Query) exec() (result any, err error) {
 		switch current := current.(type) {
 		case []any:
 			{
-				if dimensions != len(query.from) {
+				if dimensions != rows {
 					// objects and arrays side by side: the rows are evaluated in the
 					// order of the source, so the inner array waits, as the objects do,
 					// until the select list gets to it (ExecSelect)
@@ -2054,7 +2058,7 @@ func (query *Query) exec() (result any, err error) {
 			}
 		}
 	}
-	if dimensions != 0 && dimensions == len(query.from) {
+	if dimensions != 0 && dimensions == rows {
 		// every row was an array and has been evaluated as a table of its own,
 		// from WHERE to LIMIT: that is the result, with the nesting of the source
 		if query.options.completed != nil {
